@@ -85,6 +85,8 @@ def run(chk, orch):
             c1, c2 = common.random_cell(chk.rng), common.random_cell(chk.rng)
             a = {"spec": spec, "opts": common.cell_opts(opts, c1), "opts2": common.cell_opts(opts, c2), "sched": c1["sched"],
                  "sched2": c2["sched"], "bufsize": c1["bufsize"]}
+            if k % 2 == 0:
+                a["restart_again"] = True       # "can be reused": a second restart from the same saved assignments
             orch.submit(c2["hashseed"], "scenarios:reuse", a, tag=("p", k))
             reuse[k] = (a, c1, c2)
         for jid, tag, r in orch.results():
@@ -144,6 +146,16 @@ def run(chk, orch):
                     chk.violation("reuse", {"files": ",".join(bad)[:200]},
                                   "run restarted from saved assignments differs from the run that saved them: %s\n%s" % (bad[:8], (s.get("log_tail") or "")[-400:]),
                                   {"engine": "pipeline", "oracle": "module:checks.c15", "kind": "P", "args": a, "hashseed": c2["hashseed"]})
+                ag = res.get("again")
+                if ag is not None and not bad:
+                    chk.evaluations += 1
+                    chk.faults["second_restart_from_the_same_saved_assignments"] += 1
+                    bad2 = ["<exit %s %s>" % (ag["exit"], ag.get("failure_site"))] if ag["exit"] != 0 else reuse_diff(res["first"], ag)
+                    if bad2:
+                        chk.violation("reuse", {"files": "second restart: " + ",".join(bad2)[:180]},
+                                      "a second restart from the same saved assignments differs from the run that saved them / fails: %s\n%s" % (
+                                          bad2[:8], (ag.get("log_tail") or "")[-400:]),
+                                      {"engine": "pipeline", "oracle": "module:checks.c15", "kind": "P", "args": a, "hashseed": c2["hashseed"]})
         if quick or chk.time_left() < 90:
             break
 
@@ -161,6 +173,11 @@ def replay(doc, orch):
         if s.get("exit") != 0:
             return True, "second run exit %s\n%s" % (s.get("exit"), s.get("log_tail"))
         bad = reuse_diff(res["first"], s)
+        ag = res.get("again")
+        if not bad and ag is not None:
+            if ag["exit"] != 0:
+                return True, "second restart exit %s\n%s" % (ag["exit"], ag.get("log_tail"))
+            bad = ["second restart: " + x for x in reuse_diff(res["first"], ag)]
         return bool(bad), "differs: %s" % bad
     jid = orch.submit(doc.get("hashseed", 0), "machines.c15:replay_case", {"payload": doc["payload"], "what": doc.get("what_payload")})
     r = orch.run_all()[jid][1]
